@@ -104,3 +104,25 @@ TEXT["C20"] = {
     "level_text": "For every node of generated graphs deps/rdeps (direct and transitive) must print exactly the reference set, each label once; deps -t and rdeps -t must be mutual inverses; owners and list are compared with reference sets under different cwds, spellings and type filters; after an edit, the rebuilt targets must lie within owners(f) and their transitive rdeps.",
     "level_note": "Trusted: reference closures over the node graph (aliases are nodes) and refmodel pattern matcher. `grog changes` is not exercised (needs git history).",
 }
+
+TEXT["C07"] = {
+    "engine": "harness/c07 (API-level backend/CAS sequences with harness-owned interleavings, crash child processes) + lib/histeng kill/storage-fault histories + lib/audit",
+    "technique": "fault-injection property testing: generated operation sequences with failing readers and chunk-level controlled concurrent writers against a map model; SIGKILL inside Set at enumerated chunk positions in a child process; kill -9 and unwritable-store histories of the real binary followed by an offline cache audit and recovery builds",
+    "design_ref": "DESIGN.md §4 C07",
+    "level_text": "Every key must hold exactly one complete content of a completed write under failing, concurrent (interleaving owned by the harness at copy-chunk granularity) and killed writers; a CAS write that reports success must leave the blob retrievable; after every real build that is killed or runs against an unwritable blob store the cache directory is audited (digests re-hashed, target results decoded, every referenced blob present) and later builds must succeed with exact outputs.",
+    "level_note": "Crash points inside the binary are sampled in time, not enumerated (no yield-point overlay was built for the backends); the copy loop positions 0..12 are enumerated in-process.",
+}
+TEXT["C08"] = {
+    "engine": "harness/c08 (wrapper/CAS/target-result API twin over a faulty in-memory remote; real binary against lib/fakes3, three cache roots over one checkout) + lib/audit",
+    "technique": "model-based fault-injection testing of the write-through/read-through wrapper plus two-machine histories of the real binary against a loopback fake S3 with per-request fault plans, remote-store audit and cross-machine restore probe",
+    "design_ref": "DESIGN.md §4 C08",
+    "level_text": "API level: successful CAS / target-result writes must reach the remote store exactly (also when the object was local-only before), reads return exact bytes and fill the local cache, under PUT/GET/HEAD faults. Binary level: builds on machines A/B with the remote on/off, request faults (500, spurious 404, truncated body, reset), lost local blobs, lost remote objects; what a successful remote-on build wrote is audited in the fake store and must be restored without execution, byte-exact, by a third machine with an empty cache.",
+    "level_note": "S3 only (no GCS emulator). Machines are sequential cache roots over one checkout path.",
+}
+TEXT["C18"] = {
+    "engine": "harness/c18 + lib/histeng sandbox (real binary, real signals)",
+    "technique": "fault-timing property testing: SIGINT/SIGTERM at generated offsets (process or process group) into real builds of slow targets, followed by survivor detection and a recovery build",
+    "design_ref": "DESIGN.md §4 C18",
+    "level_text": "Signals are delivered at offsets stratified over loading, execution and shutdown, also with commands that ignore SIGTERM; grog must exit non-zero within 15 s when something was unfinished, leave no running target shell behind, record nothing for interrupted targets (the follow-up build runs them again), and the follow-up build must acquire the lock and produce exact outputs.",
+    "level_note": "Signal times are sampled, not enumerated.",
+}
